@@ -112,7 +112,7 @@ def main(ctx):
            "events_judged_by_monitor": ctx.events,
            "families": fams,
            "exhaustive": all(f["exhaustive_over_recorded_sessions"] for f in fams.values()),
-           "explanation": "(1) MC_Receiver: the mechanism specification Receiver.tla composed with the monitors is model-checked for every sequence of pushes (any order, losses, duplicates), a clock jump beyond the FDT expiry and the final drop, over 4 abstract sessions x 10 receiver configurations / writer scripts (no monitor conjunct violated), and deliberately broken variants of the mechanism must trip the monitors of this property; for C01 / C02 / C16 also System.tla: the sender mechanism Sender.tla produces the packets of 6 scenarios (two publication modes, carousel, two transfers, late add, removal in the middle of a transfer), a channel (clean, every single loss, every adjacent swap, every duplicate, every late join of the first cycle) feeds Receiver.tla and the monitors judge end to end; (2) sessions are recorded from the real Sender for TLC-enumerated shapes (Gen_Recv.tla, mode sess); TLC then enumerates fault schedules over the recorded packet lists (mode chan); each schedule is replayed into a fresh real MultiReceiver with a scripted writer and every event is judged by the TLA+ monitor ReceiverProps.tla (%s): this is the verdict.  The same traces are checked against the mechanism specification Receiver.tla (Trace_Receiver: callbacks of every call per object, and the containers against the hook snapshot): 'mechanism_conformance' reports matched / drifted / unsupported behaviours (binding evidence, not an alarm)" % TEXT[ctx.prop]}
+           "explanation": "(1) MC_Receiver: the mechanism specification Receiver.tla composed with the monitors is model-checked for every sequence of pushes (any order, losses, duplicates), a clock jump beyond the FDT expiry and the final drop, over 4 abstract sessions x 10 receiver configurations / writer scripts (no monitor conjunct violated), and deliberately broken variants of the mechanism must trip the monitors of this property; for C01 / C02 / C16 also System.tla: the sender mechanism Sender.tla produces the packets of 7 scenarios (two publication modes, carousel, two transfers, late add, removal in the middle of a transfer, FDT instances of 5 s renewed during a 12 s carousel), a channel (clean, every single loss, every adjacent swap, every duplicate, every late join of the first cycle) feeds Receiver.tla and the monitors judge end to end; (2) sessions are recorded from the real Sender for TLC-enumerated shapes (Gen_Recv.tla, mode sess); TLC then enumerates fault schedules over the recorded packet lists (mode chan); each schedule is replayed into a fresh real MultiReceiver with a scripted writer and every event is judged by the TLA+ monitor ReceiverProps.tla (%s): this is the verdict.  The same traces are checked against the mechanism specification Receiver.tla (Trace_Receiver: callbacks of every call per object, and the containers against the hook snapshot): 'mechanism_conformance' reports matched / drifted / unsupported behaviours (binding evidence, not an alarm)" % TEXT[ctx.prop]}
     return finish(ctx, "model_checking", cov, [
         "decodability is decided in TLA+ from the delivered (SBN, ESI) sets and the Partition.tla structure, using the decode rule the property states",
         "bytes are compared through digests computed by the harness on both sides",
